@@ -44,7 +44,8 @@ def drawing_spec(draw, arcs=True, max_cells=4):
     gy = draw(st.integers(1, 2))
     ncell = min(gx * gy, max_cells)
     cells = [draw(_tree(MAX_DEPTH, kinds)) for _ in range(ncell)]
-    size = draw(st.sampled_from([1.0, 1.0, 1.0, 1e-3, 1e3, 37.5, 0.02]))
+    # 2e-6: control points of an arc are then ~1e-6 apart, below the absolute 1e-13 zero of util.unitize for their cross product
+    size = draw(st.sampled_from([1.0] * 6 + [1e-3, 1e-3, 1e3, 1e3, 37.5, 37.5, 0.02, 0.02, 250.0, 2e-6]))
     off = draw(st.sampled_from([[0.0, 0.0], [0.0, 0.0], [1.0, -2.0], [-3.0, 0.5], [2.5, 2.5]]))
     return {
         "seed": draw(st.integers(0, 2**31 - 1)),
@@ -245,10 +246,24 @@ class Drawing:
         self.cmax = float(max(np.abs(c.bounds).max() for c in self.curves))
         self.bounds = np.array([np.min([c.bounds[0] for c in self.curves], axis=0), np.max([c.bounds[1] for c in self.curves], axis=0)])
         self.scale = float(np.hypot(*(self.bounds[1] - self.bounds[0])))
+        # smallest distance between two distinct control points of one curve (nodes, arc mid points)
+        mf = np.inf
+        for c in self.curves:
+            pts = [p for p in c.nodes] + [m for m in c.mids if m is not None]
+            P = np.array(pts)
+            d = np.hypot(P[:, None, 0] - P[None, :, 0], P[:, None, 1] - P[None, :, 1])
+            d[np.diag_indices(len(P))] = np.inf
+            mf = min(mf, float(d.min()))
+        self.min_feature = mf
+        # merge_vertices rounds to 10^-digits, digits = |int(log10(1e-5 * scale))|, i.e. a grid of at most 1e-4 * scale:
+        # distinct points at least sqrt(2) grid cells apart can never share a cell (factor 2 margin)
+        self.merge_safe = mf >= 2 * math.sqrt(2) * 1e-4 * self.scale
 
     # -- construction of one region: a curve in the band of the disc (centre, R) and its children inside
     def _region(self, tree, centre, R, depth, parent, rs):
-        if len(self.curves) >= MAX_CURVES or depth >= MAX_DEPTH:
+        # regions below 2% of the cell size are not drawn: Path.merge_vertices works on a grid of up to 1e-4 * scale
+        # (tol_path.merge=1e-5 times the AABB diagonal, rounded up to a power of ten), detail below it is outside its domain
+        if len(self.curves) >= MAX_CURVES or depth >= MAX_DEPTH or R < 0.02 * self.size:
             return
         kind = tree["kind"]
         n = int(tree["n"])
@@ -259,7 +274,7 @@ class Drawing:
         if parent is not None:
             self.curves[parent].children.append(index)
         r_hi = 0.95 * R
-        r_lo = R * rs.uniform(0.55, 0.8)
+        r_lo = R * (rs.uniform(0.68, 0.8) if kids else rs.uniform(0.55, 0.8))
         a_start = rs.uniform(0, 2 * math.pi)
         if kind == "circle":
             r = rs.uniform(r_lo, r_hi)
@@ -296,7 +311,7 @@ class Drawing:
             n = max(3, n)
             if kids:
                 n = max(n, 5)
-            ang = self._angles(n, a_start, rs, 0.7 if n > 3 else 0.4)
+            ang = self._angles(n, a_start, rs, 0.7 if (n > 3 and not kids) else 0.4)
             rad = rs.uniform(r_lo, r_hi, n)
             cur.nodes = np.array([_pol(centre, rad[i], ang[i]) for i in range(n)])
             cur.mids = [None] * n
